@@ -5,25 +5,39 @@ import os, sys
 sys.path.insert(0, os.path.join(os.path.dirname(__file__), '..', 'engine'))
 from run import Q, Unit
 UNITS = [Unit('c09')]
-def _q(name, K, defs, what, timeout=2400, mem=14, optional=False):
+def _q(name, K, defs, what, timeout=2400, mem=14, optional=False, checks='std', keys=None):
     d = {'K': K, 'NO_ITER': 1, 'IR2C_EVENTS': 1, 'IR2C_NO_ATOMIC_SECTIONS': 1}; d.update(defs)
     depth = K + 2
     return Q(name, 'c09', 'c10_radix.c', 'harness', defs=d, unwind=max(K + 2, 6),
              unwind_kind=[(r'^rx_destroy', r'^other$', 4 * K + 4), (r'rcu_radixtree|^rx_', r'^(const:\d+|counted)$', 17), (r'rcu_radixtree|^rx_', r'^other$', depth + 1)],
              unwind_fn=[(r'^ir2c_mem', 200), (r'^ir2c_event_stored$', 17), (r'^(which_e|which_l|publish_node|reader_view)$', 6)],
-             inline_witness=True, witness='any', timeout=timeout, mem_gb=mem, optional=optional, replay='generated',
-             bounds={'writer operations': K, 'keys': 'arbitrary 64-bit' + (', first two keys first differ at nibble %s' % defs['NIBBLE'] if 'NIBBLE' in defs else ', first two keys in one leaf' if 'SAMELEAF' in defs else ''),
+             inline_witness=True, witness='any', checks=checks, timeout=timeout, mem_gb=mem, optional=optional, replay='generated',
+             bounds={'writer operations': K, 'keys': keys if keys else 'arbitrary 64-bit' + (', first two keys first differ at nibble %s' % defs['NIBBLE'] if 'NIBBLE' in defs else ', first two keys in one leaf' if 'SAMELEAF' in defs else ''),
                      'instants checked': 'the state right after every atomic store of the writer and after every operation', 'reader': 'the real find() on every reference key and on the key being inserted'},
              what=what)
+# Publication into a link of an EXISTING inner node (the `if(p)` stores of cases 1 and 2) needs three operations.  With symbolic keys the
+# three-operation encoding does not fit (21M variables / >40 GB, see DESIGN.md A.6): CBMC's simplifier folds the descent only for fully concrete
+# keys, so these histories use concrete key families (values stay symbolic); every obligation (P1)-(P3) is checked at every atomic store as before.
+A, B = 0x0000000100000000, 0x0000000200000005       # two leaves under one inner node at depth 7 (slots 1 and 2)
+CONC = [  # (name, keys, ops, what)
+    ('empty-slot',   [A, B, 0x0000000700000009], [0, 0, 0], 'a new leaf published into an empty slot of the existing inner node (parent link store, case 1)'),
+    ('empty-slot15', [A, B, 0x0000000F00000000], [0, 0, 1], 'same through insert(), slot 15'),
+    ('split-below',  [A, B, 0x0000000100300000], [0, 0, 0], 'a new inner node (depth 10) with both children published into slot 1 of the existing inner node (parent link store, case 2)'),
+    ('split-below14',[A, B, 0x0000000200000025], [0, 0, 0], 'a new inner node at depth 14 published into slot 2 of the existing inner node'),
+    ('same-leaf',    [A, B, 0x0000000100000003], [0, 0, 0], 'an entry added to a leaf below the inner node (mask release, case 3)'),
+    ('split-above',  [A, B, 0x0001000000000000], [0, 0, 0], 'a new root inner node at depth 3 above the existing inner node (root store, case 2 with an inner node as sibling)'),
+    ('erase-reinsert', [A, B, A, A], [0, 0, 2, 0], 'erase and re-insert of a key in a leaf below an inner node'),
+    ('three-levels', [0x10, 0x20, 0x1000, 0x1100, 0x1105], [0, 0, 0, 0, 0], 'five insertions building inner nodes at depths 14, 12 and 13 (publication below two levels of inner nodes)'),
+]
 def queries(tier):
     qs = [_q('pub.k1', 1, {}, 'first insertion (leaf published into the empty root)', mem=8)]
     qs.append(_q('pub.k2.sameleaf', 2, {'SAMELEAF': 1}, 'second key into the published leaf of the first: value constructed before its mask bit is released'))
     for j in ([0, 7, 14] if tier == 'quick' else list(range(15))):
         qs.append(_q('pub.k2.nibble%d' % j, 2, {'NIBBLE': j}, 'prefix split at depth %d: new inner node fully linked (both children) and the new value constructed before the node is released into the %s' % (j, 'root' if j == 0 else 'root/parent')))
+    for nm, ks, os_, what in CONC:
+        qs.append(_q('pub.conc.' + nm, len(ks), {'KEYSET': '{' + ','.join('0x%xULL' % k for k in ks) + '}', 'OPSET': '{' + ','.join(str(o) for o in os_) + '}', 'C10_LEAN': 1},
+                     'concrete key history %s (ops %s; values arbitrary): %s' % (['0x%x' % k for k in ks], os_, what), timeout=600, mem=6, keys='concrete (listed in the query), values arbitrary'))
     qs.append(_q('pub.k2.any', 2, {}, 'two arbitrary writer operations (insert in all three cases, erase, re-insert)', optional=(tier == 'quick')))
-    if tier == 'thorough':
-        for j in (0, 7, 14):
-            qs.append(_q('pub.k3.nibble%d' % j, 3, {'NIBBLE': j}, 'three writer operations, first split at nibble %d (publication below an existing inner node: parent link case)' % j, timeout=3600, mem=20, optional=True))
     return qs
 def validation_queries(tier):
     return [Q('script.validate', 'c09', 'c10_radix.c', 'harness', defs={'K': 3, 'NO_ITER': 1, 'IR2C_EVENTS': 1, 'IR2C_NO_ATOMIC_SECTIONS': 1})]
@@ -37,4 +51,4 @@ FUNCTION_PATTERNS = [r'frg::rcu_radixtree', r'^rx_']
 ASSUMPTIONS = ['single writer (documented); readers only call find()', 'values are one byte and non-zero so that "constructed" is observable; fresh node memory is zero',
                'the lifting from per-instant consistency to interleaved readers relies on monotonic growth of the reachable graph, which (P1) enforces: any atomic store into a reachable node must be a release publication',
                'happens-before is argued from release/acquire pairs on the publication edges; behaviours of relaxed atomics outside those edges are not modelled']
-OUTSIDE = ['explicit exploration of reader/writer interleavings and of non-SC executions', 'writer histories longer than K operations', 'iteration concurrent with writes (documented as unsupported by the library)']
+OUTSIDE = ['three or more writer operations with symbolic keys (measured: 21 M variables, no verdict at 40 GB / 15 min); covered only on the concrete key families pub.conc.*', 'explicit exploration of reader/writer interleavings and of non-SC executions', 'writer histories longer than K operations', 'iteration concurrent with writes (documented as unsupported by the library)']
